@@ -377,6 +377,78 @@ theorem vaLoop_abs (ff : FloatFacts F B) (next : σ → UInt64 × σ) (fuel : Na
         have := hp.2 a ha
         omega
 
+/-! method A terminates for EVERY generator state (no probability involved): the skip loop runs at most `t = n - m` times because the
+    integer-valued double `top` reaches exactly 0, which makes `quot ≤ 0 < U`; so fuel `t + 1` per skip and `m` passes suffice -/
+theorem vaSkip_terminates (ff : FloatFacts F B) (U : F) (hU : LT fz U) (fuel : Nat) (quot top nreal : F) (S t r : Int)
+    (ht : 0 ≤ t) (htr : t < r) (hrB : r ≤ B) (htop : top = I t) (hnr : nreal = I r) (hq01 : Unit01 quot)
+    (hq : t = 0 → LE quot fz) (hfuel : t < fuel) : (vaSkip U fuel quot top nreal S).isSome := by
+  induction fuel generalizing quot top nreal S t r with
+  | zero => omega
+  | succ fuel ih =>
+    simp only [vaSkip]
+    split
+    · rename_i hlt
+      have ht1 : 1 ≤ t := by
+        apply Classical.byContradiction
+        intro hc
+        have : t = 0 := by omega
+        exact ff.lt_lt_le_absurd _ _ _ hU hlt (hq this)
+      have etop : VOps.sub top VOps.one = (I (t - 1) : F) := by
+        rw [htop, one_eq_I]; exact ff.sub_int t 1 (by omega) (by omega) (by omega) (by omega) (by omega) (by omega)
+      have enr : VOps.sub nreal VOps.one = (I (r - 1) : F) := by
+        rw [hnr, one_eq_I]; exact ff.sub_int r 1 (by omega) (by omega) (by omega) (by omega) (by omega) (by omega)
+      rw [etop, enr]
+      obtain ⟨m0, m1⟩ := ff.mul_unit_int quot (t - 1) hq01.1 hq01.2 (by omega) (by omega)
+      have d0 : LE fz (VOps.div (VOps.mul quot (I (t - 1))) (I (r - 1))) :=
+        ff.le_trans _ _ _ (ff.div_int_nonneg 0 (r - 1) (by omega) (by omega) (by omega) (by omega))
+          (ff.div_mono (r - 1) _ _ (by omega) (by omega) m0)
+      have d1 : LE (VOps.div (VOps.mul quot (I (t - 1))) (I (r - 1))) VOps.one :=
+        ff.le_trans _ _ _ (ff.div_mono (r - 1) _ _ (by omega) (by omega) m1)
+          (ff.div_int_le_one (t - 1) (r - 1) (by omega) (by omega) (by omega) (by omega))
+      exact ih _ _ _ (S + 1) (t - 1) (r - 1) (by omega) (by omega) (by omega) rfl rfl ⟨d0, d1⟩
+        (by
+          intro ht0
+          have m1' : LE (VOps.mul quot (I (t - 1))) (I 0) := by
+            have hh := m1
+            rw [show (I (t - 1) : F) = I 0 from by rw [ht0]] at hh ⊢
+            exact hh
+          exact ff.le_trans _ _ _ (ff.div_mono (r - 1) _ _ (by omega) (by omega) m1')
+            (ff.div_zero_nonpos (r - 1) (by omega) (by omega))) (by omega)
+    · rfl
+
+theorem vaLoop_terminates (ff : FloatFacts F B) (next : σ → UInt64 × σ) (fuel : Nat) (k : Nat) (m j r : Int) (top nreal : F)
+    (acc : List Int) (s : σ) (hm : 1 ≤ m) (hmr : m ≤ r) (hrB : r ≤ B) (htop : top = I (r - m)) (hnr : nreal = I r)
+    (hk : m ≤ k) (hfuel : r - m < fuel) : (vaLoop next fuel k m j top nreal acc s).isSome := by
+  induction k generalizing m j r top nreal acc s with
+  | zero => omega
+  | succ k ih =>
+    simp only [vaLoop]
+    split
+    · rename_i hm2
+      have hu := ff.dblOpen_unit (next s).1
+      have hq01 : Unit01 (VOps.div top nreal) := by
+        rw [htop, hnr]
+        exact ⟨ff.div_int_nonneg (r - m) r (by omega) (by omega) (by omega) hrB,
+               ff.div_int_le_one (r - m) r (by omega) (by omega) (by omega) hrB⟩
+      have hq0 : r - m = 0 → LE (VOps.div top nreal) fz := by
+        intro h0; rw [htop, hnr, h0]; exact ff.div_zero_nonpos r (by omega) hrB
+      have hsome := vaSkip_terminates ff _ hu.1 fuel (VOps.div top nreal) top nreal 0 (r - m) r (by omega) (by omega) hrB
+        htop hnr hq01 hq0 (by omega)
+      cases hsk : vaSkip (VOps.dblOpen (next s).1 : F) fuel (VOps.div top nreal) top nreal 0 with
+      | none => rw [hsk] at hsome; cases hsome
+      | some q =>
+        obtain ⟨S, top', nreal'⟩ := q
+        simp only []
+        obtain ⟨d, hd0, hd1, hS, htop', hnr'⟩ := vaSkip_abs ff _ hu.1 fuel _ top nreal 0 (r - m) r (by omega) (by omega) hrB
+          htop hnr hq01 hq0 S top' nreal' hsk
+        have hSd : S = d := by omega
+        subst hSd
+        have enr : VOps.sub nreal' VOps.one = (I (r - S - 1) : F) := by
+          rw [hnr', one_eq_I]; exact ff.sub_int (r - S) 1 (by omega) (by omega) (by omega) (by omega) (by omega) (by omega)
+        exact ih (m - 1) (j + (S + 1)) (r - S - 1) top' _ _ _ (by omega) (by omega) (by omega)
+          (by rw [htop']; congr 1; omega) enr (by omega) (by omega)
+    · rfl
+
 /-! `esl_rand64_Deal` -/
 /-- exactly `m` strictly increasing values in `0..hi` -/
 def DealOKz (out : List Int) (m hi : Int) : Prop :=
